@@ -323,7 +323,7 @@ func Load(ctx context.Context, wd string, env []string, tags string, patterns []
 					ec.add(notePositionAll(fset.Position(fn.Pos()), errs)...)
 					continue
 				}
-				_, errs = solve(fset, out.out, ins, set)
+				calls, errs := solve(fset, out.out, ins, set)
 				if len(errs) > 0 {
 					ec.add(mapErrors(errs, func(e error) error {
 						if w, ok := e.(*wireErr); ok {
@@ -331,6 +331,10 @@ func Load(ctx context.Context, wd string, env []string, tags string, patterns []
 						}
 						return notePosition(fset.Position(fn.Pos()), fmt.Errorf("inject %s: %v", fn.Name.Name, e))
 					})...)
+					continue
+				}
+				if errs := checkInjectorCalls(fset, pkg.PkgPath, fn, out, calls); len(errs) > 0 {
+					ec.add(errs...)
 					continue
 				}
 				info.Injectors = append(info.Injectors, &Injector{
@@ -341,6 +345,32 @@ func Load(ctx context.Context, wd string, env []string, tags string, patterns []
 		}
 	}
 	return info, ec.errors
+}
+
+// checkInjectorCalls reports the errors that generation would report for an
+// injector whose provider set is otherwise complete: a needed provider that
+// returns a cleanup function or an error the injector cannot return, and
+// value expressions the injector's package cannot refer to.
+func checkInjectorCalls(fset *token.FileSet, pkgPath string, fn *ast.FuncDecl, sig outputSignature, calls []call) []error {
+	pos := fset.Position(fn.Pos())
+	name := fn.Name.Name
+	ec := new(errorCollector)
+	for i := range calls {
+		c := &calls[i]
+		ts := types.TypeString(c.out, nil)
+		if c.hasCleanup && !sig.cleanup {
+			ec.add(notePosition(pos, fmt.Errorf("inject %s: provider for %s returns cleanup but injection does not return cleanup function", name, ts)))
+		}
+		if c.hasErr && !sig.err {
+			ec.add(notePosition(pos, fmt.Errorf("inject %s: provider for %s returns error but injection not allowed to fail", name, ts)))
+		}
+		if c.kind == valueExpr {
+			if err := accessibleFrom(c.valueTypeInfo, c.valueExpr, pkgPath); err != nil {
+				ec.add(notePosition(pos, fmt.Errorf("inject %s: value %s can't be used: %v", name, ts, err)))
+			}
+		}
+	}
+	return ec.errors
 }
 
 // load typechecks the packages that match the given patterns and
